@@ -1,11 +1,72 @@
 import DltypeModel
+import Spec
+import Proofs.Report
 namespace Dltype.C08
-open Dltype
+open Dltype Dltype.Spec Dltype.Proofs
+
+/-- **C08a** a rejection comes from the FIRST tensor (in source order) that fails; all tensors before it
+    were accepted, and the report is computed under exactly the bindings they established -/
+theorem rejection_is_first_failure (acc : Acc) (st : CState) (es : List Entry) (r : Report)
+    (h : runEntries acc st es = .reject r) :
+    ∃ pre e post st1, es = pre ++ e :: post ∧ runEntries acc st pre = .ok st1 ∧ tensorStep acc st1 e = .reject r :=
+  runEntries_reject acc st es r h
+
+/-- the kind of the report matches the violated aspect: the standalone check's report (rank, dtype,
+    literal axis — characterised in C03), the duplicate-name report, a per-axis report, or the rank report of
+    a `*name` group that absorbs a different number of axes than recorded -/
+theorem report_kind_matches_aspect (acc : Acc) (st : CState) (e : Entry) (r : Report)
+    (h : tensorStep acc st e = .reject r) :
+    check acc e.ann e.tensor e.displayName = .error r ∨
+    (r = .duplicate e.displayName ∧ e.displayName ∈ st.registered) ∨
+    (assertDims e.displayName 0 (expandDims e.ann e.tensor.shape) e.tensor.shape st.σ = .reject r) ∨
+    (∃ g b, e.ann.multiName = some g ∧
+       r = .ndims e.displayName (Int.ofNat (e.ann.dims.length - 1) + b) e.tensor.shape.length ∧
+       b ≠ Int.ofNat e.tensor.shape.length - Int.ofNat (e.ann.dims.length - 1)) :=
+  tensorStep_reject acc st e r h
+
+/-- a per-axis report is factually correct: it names the tensor, the index `j` of an axis of the ACTUAL
+    tensor, the size found there, and an expected value different from it which is the value of that axis'
+    dimension under the bindings established before it (or the earlier binding of the dimension's name);
+    or it names a name that is not bound at that point -/
+theorem axis_report_is_true (tn : Name) (ds : List DimExpr) (shape : List Nat) (σ : Scope) (r : Report)
+    (h : assertDims tn 0 ds shape σ = .reject r) :
+    ∃ j dj aj σj, ds[j]? = some dj ∧ shape[j]? = some aj ∧
+      assertDims tn 0 (ds.take j) (shape.take j) σ = .ok σj ∧
+      ((∃ v : Int, r = .shape tn j v (Int.ofNat aj) ∧ v ≠ Int.ofNat aj ∧
+          (dj.evaluate σj = .val v ∨ (dj.evaluate σj = .val (Int.ofNat aj) ∧ σj.get? dj.identifier = some v))) ∨
+       (∃ k, r = .invalidRef tn k σj.keys ∧ σj.get? k = none)) := by
+  obtain ⟨j, dj, aj, σj, h1, h2, h3, h4⟩ := assertDims_reject tn 0 ds shape σ r h
+  refine ⟨j, dj, aj, σj, h1, h2, h3, ?_⟩
+  have := dimStep_reject tn (0 + j) dj aj σj r h4
+  simpa using this
+
+/-- **C08b** every error class of `_errors.py` derives from `DLTypeError`, which derives from `TypeError`
+    (see `Properties/C08b.lean`, over the regenerated class table) -/
+theorem every_rejection_is_a_report (acc : Acc) (st : CState) (es : List Entry) :
+    (∃ st', runEntries acc st es = .ok st') ∨ (∃ r, runEntries acc st es = .reject r) ∨
+    (∃ e, runEntries acc st es = .pyExc e) ∨ runEntries acc st es = .unmodelled := by
+  cases runEntries acc st es with
+  | ok s => exact Or.inl ⟨s, rfl⟩
+  | reject r => exact Or.inr (Or.inl ⟨r, rfl⟩)
+  | pyExc e => exact Or.inr (Or.inr (Or.inl ⟨e, rfl⟩))
+  | unmodelled => exact Or.inr (Or.inr (Or.inr rfl))
 
 /-- KNOWN FINDING F7 (negation of "nothing but DLTypeErrors", kernel-checked witness): a division by a
     zero-sized axis surfaces as ZeroDivisionError from the (faithful) checker model. -/
 theorem full_statement_false :
     dimStep ['x'] 2 { identifier := "a/b".toList, post := [.str ['a'], .str ['b'], .op (.bin .div)] } 1
       [(['a'], 2), (['b'], 0)] matches .pyExc .zeroDivision := by decide
+
+/-- non-vacuity: a context whose second tensor contradicts a binding of the first is rejected with the
+    shape report of that axis -/
+theorem example_reject :
+    (match parseShape (some "a b".toList), parseShape (some "b".toList) with
+     | .ok a1, .ok a2 =>
+       (match runEntries (fun _ _ => true) {}
+          [{ argIndex := 0, name := ['x'], tensor := { dt := ⟨0, 0⟩, shape := [2, 3] }, ann := a1 },
+           { argIndex := 0, name := ['y'], tensor := { dt := ⟨0, 0⟩, shape := [5] }, ann := a2 }] with
+        | .reject (.shape n i e a) => n == ['y'] && i == 0 && e == 3 && a == 5
+        | _ => false)
+     | _, _ => false) = true := by decide
 
 end Dltype.C08
